@@ -96,6 +96,14 @@ def pretty_cases(seed, tier):
             bounds = sorted(set(rng.sample(bounds, min(len(bounds), 6)) + [0, len(b)]))
         for p in bounds:
             cases.append((t, p, None if (len(cases) % 3) else 'src/g.ebnf'))
+    # very long lines: the column passes 2^16 (a run-time format width is a u16 in recent Rust: defect F10)
+    long1 = 'a' * 65534 + '\u00e9' + 'bcd\nnext'
+    b1 = long1.encode()
+    for p in (65533, 65534, 65536, 65537, 65538, len(b1) - 5, len(b1)):
+        cases.append((long1, p, None if p % 2 else 'src/long.ebnf'))
+    long2 = 'x\n' + ' ' * 70000 + 'y'
+    cases.append((long2, len(long2), None))
+    cases.append((long2, 2 + 65535, 'src/long.ebnf'))
     return cases
 
 
